@@ -38,3 +38,10 @@ impl RecordHeader {
     #[verifier::external_body]
     pub fn key_eq(&self, key: &KeyT) -> (r: bool) ensures r == (self.key@ == key@) { unimplemented!() }
 }
+impl RecordHeader {
+    // `rh.key() == key` with key: &[u8]
+    #[verifier::external_body]
+    pub fn key_is(&self, key: &[u8]) -> (r: bool) ensures r == (self.key@ == key@) { unimplemented!() }
+    #[verifier::external_body]
+    pub fn same_key(&self, other: &RecordHeader) -> (r: bool) ensures r == (self.key@ == other.key@) { unimplemented!() }
+}
